@@ -236,11 +236,29 @@ def parseNodeDump (line : String) : Option NodeDump :=
     | _, _, _, _ => none
   | _ => none
 
+/-- the latest `mapnodes` line of every label, parsed once (hash of the line, dump): the dumps of
+the many-tree states have thousands of entries and serve many `mapmissing` lines -/
+initialize nodeDumpCache : IO.Ref (HashMap String (UInt64 × NodeDump)) ← IO.mkRef {}
+
+def cachedNodeDump (label : String) : M (Option NodeDump) := do
+  let s ← get
+  match s.extra.get? ("mapnodes:" ++ label) with
+  | none => pure none
+  | some l =>
+    let c ← (nodeDumpCache.get : IO _)
+    match c.get? label with
+    | some (h, nd) => if h == hash l then return some nd
+    | none => pure ()
+    match parseNodeDump l with
+    | some nd =>
+      (nodeDumpCache.modify fun c => c.insert label (hash l, nd) : IO Unit)
+      pure (some nd)
+    | none => pure none
+
 def handleMapMissing (line : String) (toks : List String) : M Unit := do
   match toks with
   | tag :: label :: ts :: lh :: res =>
-    let s ← get
-    match s.extra.get? ("mapnodes:" ++ label) >>= parseNodeDump, parseU64s ts, parseHashes lh with
+    match ← cachedNodeDump label, parseU64s ts, parseHashes lh with
     | some nd, some ts, some lh =>
       let kind := if tag == "honest" then "mapmissing" else "mapmissing:" ++ tag
       let has := fun (p : U64) => nd.byPos.contains p.toNat
